@@ -198,6 +198,9 @@ def py_model(ops, pos):
 
 
 def replayer(v):
+    if v.get('kind') == 'c08_directive':
+        from .c08 import replayer as c08_replayer
+        return c08_replayer(v)
     if v.get('kind') == 'lemma' and v.get('level') == 'body':
         # confirmation: library commands written in duckscript whose body fails (with and without an inner output variable); the error
         # must be reported (output false, last error set with the line of the calling instruction) and be fatal under exit_on_error
@@ -270,6 +273,10 @@ def main(tier, seed):
     chk.job(job_runner_step, 'step/runner reports errors', n=5, pid=PID, only=('error handler', 'Runtime error carrying', 'failing error handler', 'output variable set'))
     chk.job(job_on_error_lemma, 'step/runner invokes on_error', pid=PID)
     chk.job(job_eval_instructions_lemma, 'step/body loop of script-implemented commands', n=4 if tier == 'quick' else 8)
+    # the position reported for an error is the line the parser gave the instruction: every instruction of a text carries the number of
+    # its own line, also behind a directive that added instructions (the job is shared with C08)
+    from .c08 import job_after_directive
+    chk.job(job_after_directive, 'positions/lines behind a directive', W=2 if tier == 'quick' else 4)
     chk.bounds = dict(step_lemmas='each operation once from an arbitrary protocol state (last error absent or arbitrary message <= 3 chars / line 0..99 / source <= 3 chars, exit_on_error absent / true / false); state afterwards compared field by field', program_length='<= %d' % k, op_kind_sequences=len(seqs), messages=MSGS, flags=FLAGS)
     chk.assumptions = ['failing library command = harness command returning Error(message) (plus the real trigger_error); on_error, exit_on_error, get_last_error* are the real run functions',
                        'whole programs are top-level only; errors inside script-implemented library commands are covered by the body-loop lemma (utils::eval::eval_instructions) + C19 (the wrapper returns the body result) + the runner step lemma; errors inside function bodies / loops run through the same runner loop (step lemma); included files: C14',
